@@ -13,4 +13,18 @@ GNext == \/ \E c \in Clients, s \in Conns, b \in Batches :
               /\ hist' = Append(hist, [c |-> c, s |-> s, items |-> <<[k |-> "SP", n |-> "adhoc"]>>])
 GSpec == Init /\ hist = <<>> /\ [][GNext]_gv
 Emit == (nb = MaxBatches) => PrintT(<<"SCENARIO", ToJson(hist)>>)
+
+\* ---- a family enumerated instead of sampled (Gen_Prepared_lru.cfg): two single-Parse batches put two statements on a
+\* connection, then the client of the first one sends a batch that binds its (older) statement and parses a third one.
+\* With a per-connection cache of two the pooler has to evict - the statement this batch has not just used.
+LruPrefix == \A i \in 1..Len(hist) : i <= 2 => (Len(hist[i].items) = 1 /\ hist[i].items[1].k = "P")
+LruShape ==
+  /\ Len(hist) = 3
+  /\ hist[1].items[1].q # hist[2].items[1].q
+  /\ hist[3].c = hist[1].c
+  /\ Len(hist[3].items) = 2
+  /\ hist[3].items[1].k = "BE" /\ hist[3].items[1].n = hist[1].items[1].n
+  /\ (hist[2].c = hist[1].c => hist[2].items[1].n # hist[1].items[1].n)
+  /\ hist[3].items[2].k = "P" /\ hist[3].items[2].q \notin {hist[1].items[1].q, hist[2].items[1].q, BAD}
+EmitLru == (nb = MaxBatches /\ LruShape) => PrintT(<<"SCENARIO", ToJson(hist)>>)
 =============================================================================
